@@ -106,4 +106,42 @@ theorem solve_sequence (E : Env ω ρ ξ α) (cb : Option (Callback ω)) (rest :
       simp only [setMaxiter_nanstop]
       exact hd1n
 
+/-! ### after a NaN stop -/
+
+/-- the timer after a `solve()` that the NaN stop interrupted in iteration `j`: the default timer
+    is left running and reads the time at the call plus the durations of the steps `0..j` -/
+theorem solve_trip_timer (E : Env ω ρ ξ α) (cb : Option (Callback ω)) (d : Drv ω ρ L)
+    (hda : d.timer.dflt ≠ d.timer.all) (hwf : TimerWF d.timer d.clock) (j : Nat)
+    (hj : j < d.maxiter.toNat)
+    (hclean : ∀ k < j, tripsB E d.nanstop (afterStep E cb d.world k) = false)
+    (htrip : tripsB E d.nanstop (afterStep E cb d.world j) = true) :
+    RunningAt (d.timer.start .none d.clock) (solve E cb d).1.timer (solve E cb d).1.clock
+      (d.timer.elapsedDefault true d.clock + stepTime E cb d.world (j + 1)) := by
+  have hrun := running_after_start d.timer d.clock hwf
+  obtain ⟨dj, hat, hl⟩ := loop_trip E cb (d.timer.start .none d.clock) d.timerStart d.itnum
+    (d.timer.elapsedDefault true d.clock) hda hrun j d.maxiter.toNat hj hclean htrip
+  unfold solve
+  have hm0 : d.timerStart.maxiter = d.maxiter := rfl
+  have hi0 : d.timerStart.itnum = d.itnum := rfl
+  simp only [hm0, hi0, hl]
+  have hadv := hat.timer.advance (dj.clock + E.stepTicks dj.world) (by omega)
+  have hw : dj.world = worldAt E cb d.world j := hat.world
+  simp only [stepped]
+  rw [stepTime_succ]
+  have : d.timer.elapsedDefault true d.clock + stepTime E cb d.timerStart.world j +
+      (dj.clock + E.stepTicks dj.world - dj.clock) =
+      d.timer.elapsedDefault true d.clock + (stepTime E cb d.world j + E.stepTicks (worldAt E cb d.world j)) := by
+    rw [hw]; simp only [Drv.timerStart]; omega
+  rw [← this]
+  exact hadv
+
+theorem RunningAt.wf {T0 T : Timer L} {c e : Nat} (h : RunningAt T0 T c e) : TimerWF T c := by
+  obtain ⟨hd, _, s, td, hs, hle, _⟩ := h
+  intro e' he' s' hs'
+  rw [hs, hd, Store.get_set] at he'
+  simp only [if_true, Option.some.injEq] at he'
+  subst he'
+  simp only [Option.some.injEq] at hs'
+  omega
+
 end Scico.Driver
